@@ -19,7 +19,8 @@ RULE = ("definitions from the supported forms: header with string values, exists
         "anyof/allof; actions with positional strings and value-less tags (fileinto/redirect "
         "with :copy/:create, reject, keep, discard, stop, set/add/removeflag, vacation "
         "[:mime]); values benign or soft (commas, spaces, brackets, non-ASCII); each read "
-        "back in 4 views (original, disabled, re-enabled, reloaded). Non-trivial = definition "
+        "back in 4 views (original, disabled, re-enabled, reloaded) and, for half of them, after "
+        "updatefilter on the disabled filter (same name / renamed / renamed then enabled). Non-trivial = definition "
         "was built; distinct = distinct definitions.")
 ASSUMPTIONS = [
     "normal form: tuples, numbers compared by str(), lists stay lists",
@@ -29,9 +30,9 @@ ASSUMPTIONS = [
 ]
 FLOORS = {
     "quick": {"readbacks": 30000, "views:reloaded": 5000, "views:disabled": 8000,
-              "multi-condition": 3000},
+              "multi-condition": 3000, "views:update": 3000},
     "thorough": {"readbacks": 1500000, "views:reloaded": 300000, "views:disabled": 300000,
-                 "multi-condition": 100000},
+                 "multi-condition": 100000, "views:update": 100000},
 }
 SHARD_TIMEOUT = {"quick": 600, "thorough": 3000}
 
@@ -104,10 +105,10 @@ def views(d):
     return out, fs
 
 
-def read(fs):
-    c = fl.call(fs.get_filter_conditions, "f")
-    a = fl.call(fs.get_filter_actions, "f")
-    m = fl.call(fs.get_filter_matchtype, "f")
+def read(fs, name="f"):
+    c = fl.call(fs.get_filter_conditions, name)
+    a = fl.call(fs.get_filter_actions, name)
+    m = fl.call(fs.get_filter_matchtype, name)
     return c, a, m
 
 
@@ -146,6 +147,28 @@ def evaluate(d):
     fl.call(fs.enablefilter, "f")
     for what, how, detail in compare(d, read(fs)):
         res.append(("re-enabled", what, how, detail))
+    # updatefilter on a disabled filter (same name, then renamed): the new definition
+    # must be what is read back, under the new name, disabled or not
+    upd = getattr(d, "_update", None)
+    if upd is not None:
+        fl.call(fs.disablefilter, "f")
+        r2 = fl.call(fs.updatefilter, "f", "f", list(upd.conditions), list(upd.actions),
+                     upd.matchtype)
+        if r2[0] == "ret":
+            for what, how, detail in compare(upd, read(fs)):
+                res.append(("updated-while-disabled", what, how, detail))
+            r3 = fl.call(fs.updatefilter, "f", "g", list(d.conditions), list(d.actions),
+                         d.matchtype)
+            if r3[0] == "ret":
+                for what, how, detail in compare(d, read(fs, "g")):
+                    res.append(("renamed-while-disabled", what, how, detail))
+                if fl.call(fs.getfilter, "f") != ("ret", None):
+                    res.append(("renamed-while-disabled", "old-name", "still-present", "-"))
+                fl.call(fs.enablefilter, "g")
+                for what, how, detail in compare(d, read(fs, "g")):
+                    res.append(("renamed-then-enabled", what, how, detail))
+                fl.call(fs.updatefilter, "g", "f", list(d.conditions), list(d.actions),
+                        d.matchtype)
     reloaded = False
     t = fl.render(fs)
     if t[0] == "ret":
@@ -172,6 +195,9 @@ def run_shard(tier, shard, res: Result):
         vkind = rng.choice(["benign", "soft"])
         single = rng.random() < 0.6
         d = gen_def(rng, vkind, single)
+        if rng.random() < 0.5:
+            d._update = gen_def(rng, vkind, True)
+            res.count("views:update")
         built, viols, extra = evaluate(d)
         wit = {"conditions": d.conditions, "actions": d.actions, "matchtype": d.matchtype}
         if not built:
